@@ -4,7 +4,7 @@ from their 3-D text in lean/ParryModel/C05/Theorems.lean, by dropping the z-coor
 between `--2D-BEGIN` and `--2D-END` in the same file; Lean then checks it like any hand-written proof."""
 import re, os, sys
 V = os.path.dirname(os.path.dirname(os.path.abspath(__file__)))
-P = V + "/lean/ParryModel/C05/Theorems.lean"
+P = V + "/lean/ParryModel/C05/Theorems1.lean"
 s = open(P).read()
 if "--2D-BEGIN" in s:
     s = s[:s.index("--2D-BEGIN")] + s[s.index("--2D-END") + len("--2D-END\n"):]
